@@ -156,6 +156,12 @@ def _version_dict(M, m, p, t, extra):
         d["VERSION_TWEAK"] = str(t)
     if extra is not None:
         d["EXTRAVERSION"] = extra
+    # the system-controller firmware version of the same file follows the same rules (other field values, to tell them apart)
+    d.update({"SYSCTRL_VERSION_MAJOR": str(p), "SYSCTRL_VERSION_MINOR": str(M), "SYSCTRL_VERSION_PATCH": str(m)})
+    if t is not None:
+        d["SYSCTRL_VERSION_TWEAK"] = str(255 - t)
+    if extra is not None:
+        d["SYSCTRL_VERSION_EXTRA"] = extra
     return d
 
 
@@ -203,6 +209,18 @@ def run_glue(case, agg):
                     continue
                 if extra not in EXTRA_EXPECT and not (len(lst) > 3 and lst[3] < 0):
                     agg.viol("C20:glue/unsupported-extraversion-not-prerelease", f"{vd}: DEFAULT_VERSION {ver!r} -> {lst}")
+                    continue
+                try:
+                    sseq, sver = int(res["SCFW_SEQ_NUM"]), res["SCFW_VERSION"]
+                    slst = V.from_obj(sver).to_obj()
+                except Exception as e:
+                    agg.viol("C20:glue/scfw-version-not-accepted", f"{vd}: {type(e).__name__}: {e}")
+                    continue
+                if sseq != (p << 24) + (M << 16) + (m << 8) + ((255 - t) if t is not None else 0):
+                    agg.viol("C20:glue/scfw-sequence-number", f"{vd}: SCFW_SEQ_NUM {sseq}")
+                    continue
+                if tuple(slst[:3]) != (p, M, m) or (extra in EXTRA_EXPECT and tuple(slst[3:]) != EXTRA_EXPECT[extra]):
+                    agg.viol("C20:glue/scfw-version", f"{vd}: SCFW_VERSION {sver!r} -> {slst}")
                     continue
                 agg.ok(key, f"ok:{path}", sample={"VERSION": vd, "seq": seq, "version": ver, "list": lst} if (t == 1 and ei == 3) else None)
 
